@@ -291,7 +291,7 @@ WalkVendor(b, i, e) ==        \* i = first byte after the 8-byte OpenFlow header
             /\ LET ml == W16(b, d + 10)  me == d + 8 + ml - 1 IN
                  /\ ml >= 8 /\ In(b, d + 8, ml, e) /\ WalkMsgAt(b, d + 8, me)
                  /\ (me = e \/ (In(b, d + 8, RoundUp(ml, 8), e) /\ ZeroRange(b, me + 1, d + 8 + RoundUp(ml, 8) - 1)   \* padded only when properties follow
-                                /\ WalkProps(b, d + 8 + RoundUp(ml, 8), e)))
+                                /\ d + 8 + RoundUp(ml, 8) <= e /\ WalkProps(b, d + 8 + RoundUp(ml, 8), e)))    \* at least one property
        [] OTHER -> TRUE                                                   \* other experimenters: opaque
 WalkMp(b, i, e) ==            \* multipart request body after type/flags/pad
   /\ In(b, i, 8, e)
